@@ -219,6 +219,7 @@ async fn write_file(fm: &FileManager, file_type: FileType, data: &[u8]) -> Resul
 		options
 			.write(true)
 			.create(true)
+			.truncate(true)
 			.open(&path)
 			.await
 			.map_err(|e| Error::from(e).prefix(&path.display().to_string()))?
@@ -228,6 +229,10 @@ async fn write_file(fm: &FileManager, file_type: FileType, data: &[u8]) -> Resul
 			.map_err(|e| Error::from(e).prefix(&path.display().to_string()))?
 	};
 	file.write_all(data)
+		.await
+		.map_err(|e| Error::from(e).prefix(&path.display().to_string()))?;
+	// tokio completes the write in the background: wait for it before running the hooks
+	file.flush()
 		.await
 		.map_err(|e| Error::from(e).prefix(&path.display().to_string()))?;
 	if cfg!(unix) {
